@@ -33,6 +33,12 @@ claim("C03",
       STATIC_NOTE + "tables/round_guards.json is the reference inventory (semantic keys, never positions). Known limit: a legitimate change of what data feeds a check requires a reviewed table regeneration.",
       "DESIGN.md §4 C03")
 
+claim("C05",
+      "panic-containment rule (deferred recover barrier registered first, under the lock, ending the session) on both Accept entry points; nil-validation rule for peer-controlled fields touched by pool-worker closures (guard inventory with nil-rejecting deciders, inside the task or dominating the pool call); tabled explicit panic sites; len-guard / allocation-bound dominance rules for custom UnmarshalBinary; who-may-start-goroutines rule",
+      "Decides for every byte string presented to Accept that a panic on the caller's goroutine cannot escape (the barrier dominates all decoding and round code and converts any panic into a clean abort), and that code running on pool workers - the only place the barrier cannot reach - dereferences peer data only after a nil-rejecting validator; that hand-written binary decoders never index or allocate from unchecked lengths; that no library code starts other goroutines. Right level: a crash is a control-flow effect visible on every path, independent of the input sampled. Time bounds of big-number arithmetic are NOT decided.",
+      STATIC_NOTE + "CBOR decode model of DESIGN §2; recover semantics of the Go spec. Restore of key material through plain cbor.Unmarshal by the caller (frost/doerner configs) is outside any library entry point: see known findings of C15.",
+      "DESIGN.md §4 C05")
+
 for p, why in {
     "C01": "not built yet", "C02": "not built yet", "C03": "not built yet", "C04": "not built yet", "C05": "not built yet",
     "C06": "not built yet", "C07": "not built yet", "C08": "not built yet", "C09": "not built yet", "C10": "not built yet",
